@@ -1,0 +1,17 @@
+//go:build verif
+
+package datamatrix
+
+import (
+	"github.com/makiuchi-d/gozxing"
+	"github.com/makiuchi-d/gozxing/datamatrix/encoder"
+)
+
+// Verification hook (build tag `verif` only): the writer's low-level stage for an arbitrary
+// codeword sequence (data + error codewords), i.e. steps 3 and 4 of DataMatrixWriter.Encode.
+func VerifEncodeLowLevel(codewords []byte, symbolInfo *encoder.SymbolInfo, width, height int) *gozxing.BitMatrix {
+	placement := encoder.NewDefaultPlacement(codewords,
+		symbolInfo.GetSymbolDataWidth(), symbolInfo.GetSymbolDataHeight())
+	placement.Place()
+	return encodeLowLevel(placement, symbolInfo, width, height)
+}
